@@ -45,6 +45,8 @@ def cbd_domain(values, feature_idx, metric_idx, d, cols=COLS, max_n=3000):
         return False, "empty"
     if n > max_n:
         return False, "too large for the brute-force oracle"
+    if isinstance(d, np.ndarray) and d.ndim == 0:
+        d = d[()]
     if not (isinstance(d, (int, float, np.integer, np.floating)) and np.isfinite(d) and d > 0):
         return False, "d not a positive finite number"
     if not np.all(np.isfinite(values)):
